@@ -312,6 +312,10 @@ func fieldMap(fds []*ggql.FieldDef, dd dirDefs) map[string]interface{} {
 func names(ts []ggql.Type) []interface{} {
 	out := []interface{}{}
 	for _, t := range ts {
+		if t == nil {
+			out = append(out, "<nil>")
+			continue
+		}
 		out = append(out, t.Name())
 	}
 	return out
@@ -331,7 +335,17 @@ func coreDirDefs() dirDefs {
 }
 
 // ReadBack projects a real root onto the canonical form of SchemaCore!Canon.
-func ReadBack(root *ggql.Root) map[string]interface{} {
+func ReadBack(root *ggql.Root) (out map[string]interface{}) {
+	// a root whose tables are corrupt (nil entries, dangling members) must show as a difference, not kill the harness
+	defer func() {
+		if r := recover(); r != nil {
+			out = map[string]interface{}{"unreadable": fmt.Sprintf("walking the root's types through the public API panicked: %v", r)}
+		}
+	}()
+	return readBack(root)
+}
+
+func readBack(root *ggql.Root) map[string]interface{} {
 	dd := coreDirDefs()
 	dirs := map[string]interface{}{}
 	for _, t := range root.VerifDirectives() {
